@@ -575,6 +575,16 @@ class World:
             self.probes['probe_not_quiescent'] += 1
             return
         spec = op['app']
+        # soundness: the probe must be the LAST instance of its allocation
+        # in priority order (priority-0 ones aside), otherwise it pushes its
+        # siblings' cumulative demand past the reservation, their rank
+        # changes, the queue is re-ordered and an instance ahead of the
+        # probe may legitimately take the room (found by a soak)
+        alloc = self._alloc(spec['alloc'])
+        if any(0 < a.priority < spec['prio'] for a in alloc.apps.values()):
+            self.probes['probe_not_last_in_allocation'] = \
+                self.probes.get('probe_not_last_in_allocation', 0) + 1
+            return
         fit = self._probe_fits(spec, now)
         self.op_add_app(dict(spec, op='add_app'))
         ctx = self.run_cycle(checks=())
@@ -733,6 +743,10 @@ class Generator:
             return None
         spec['once'] = False
         del spec['op']
+        alloc = world._alloc(spec['alloc'])
+        prios = [a.priority for a in alloc.apps.values() if a.priority > 0] \
+            if alloc is not None else []
+        spec['prio'] = min(prios) if prios else max(1, spec['prio'])
         return {'op': 'probe', 'app': spec}
 
     def _some_app(self, world, placed=None):
